@@ -95,11 +95,19 @@ def node_labels(rng, k):
     return kind, rng.choice(np.arange(1000, 9000), k, replace=False).tolist()
 
 
-def multi_point_series(seq, factors, labels=None, node_ids=None):
-    """load series with MultiIndex (load_step, node_id) for proportional points"""
+def multi_point_series(seq, factors, labels=None, node_ids=None, selected_from_larger_mesh=False):
+    """load series with MultiIndex (load_step, node_id) for proportional points.
+    selected_from_larger_mesh: the series is cut out of the result of a larger mesh by a boolean mask, as one does for hot
+    spots - its index then still carries the node ids (and codes) of the nodes that were left out (unused levels)"""
     seq = np.asarray(seq, dtype=float)
     labels = list(range(len(seq))) if labels is None else labels
     node_ids = list(range(len(factors))) if node_ids is None else node_ids
+    if selected_from_larger_mesh:
+        others = [max(node_ids) + 7, min(node_ids) - 3] if not isinstance(node_ids[0], str) else ["zz_other", "aa_other"]
+        all_ids = [others[1]] + list(node_ids) + [others[0]]
+        fac = [0.37] + list(factors) + [1.9]
+        big = multi_point_series(seq, fac, labels, all_ids)
+        return big[big.index.get_level_values("node_id").isin(node_ids)]
     idx = pd.MultiIndex.from_product([labels, node_ids], names=["load_step", "node_id"])
     vals = (seq[:, None] * np.asarray(factors, dtype=float)[None, :]).reshape(-1)
     return pd.Series(vals, index=idx)
